@@ -128,10 +128,12 @@ fn apply<A: Alignment>(ac: &mut AlignedCursor<A>, sc: &mut Cursor<Vec<u8>>, op: 
                 if i < n { m[i] ^= 0xFF; sc.get_mut()[i] ^= 0xFF; }
             }
             Op::ReadExact(n) => {
-                // Only where it succeeds: after a failing read_exact the position is unspecified by
-                // the Read contract (std's Cursor happens to move to the end, the provided method
-                // used by AlignedCursor leaves it), so a failing call is outside the alphabet.
-                if sc.position().saturating_add(n as u64) > sc.get_ref().len() as u64 { return None; }
+                // After a failing read_exact the position is unspecified by the Read contract; for a
+                // call that starts beyond the end std's Cursor happens to move to the end while the
+                // provided method used by AlignedCursor leaves the position: outside the alphabet.
+                // (a failing call that starts inside the data ends at the end of the data in both:
+                // only failing calls that start BEYOND the end are left out)
+                if sc.position() > sc.get_ref().len() as u64 && sc.position().saturating_add(n as u64) > sc.get_ref().len() as u64 { return None; }
                 let mut ba = vec![0xEEu8; n];
                 let mut bs = vec![0xEEu8; n];
                 let a = ac.read_exact(&mut ba);
